@@ -132,7 +132,7 @@ structure DState where
 
 def histOps : List String :=
   ["reset", "geo", "root", "mem", "memw", "elem", "elemw", "set", "setm", "sete", "add", "addv", "toarr", "toobj", "remi", "remk", "clear", "cleardoc",
-   "copydoc", "swapdoc", "shrink", "obs", "obsx", "failat", "failfrom", "nofail", "ledger", "hser", "liveq", "deserj", "deserm"]
+   "copydoc", "swapdoc", "shrink", "obs", "obsx", "failat", "failfrom", "nofail", "ledger", "hser", "liveq", "deserj", "deserm", "rd2"]
 
 /-- cell of a C array after copyArray: `none` in the model = undefined behaviour of the conversion -/
 def caCell (cfg : Cfg) (kind : String) (v : Val) : String :=
@@ -167,6 +167,12 @@ def copyArrOp (cfgs kind : String) (rest : List String) (form : Nat) : String :=
       let (cells, c) := CA.copy1 (caCell cfg kind) (CA.elems v) (List.replicate n (caFill kind))
       if n == 0 then s!"{c}" else s!"{c} {" ".intercalate cells}"
 
+/-- geometry of the build the harness was compiled with (default: the generated constants of the default configuration) -/
+def docGeo (geo : List String) : PL.Geo × Nat × Nat :=
+  match geo with
+  | [cap, ini, idb, so, mx] => (⟨cap.toNat!, ini.toNat!, idb.toNat!, Gen.slot_size, Gen.pool_object_size⟩, so.toNat!, mx.toNat!)
+  | _ => (⟨Gen.pool_capacity, Gen.initial_pool_count, Gen.slot_id_size, Gen.slot_size, Gen.pool_object_size⟩, Gen.string_overhead, Gen.string_max_length)
+
 def handle (st : DState) (ws : List String) : String × DState :=
   let pure (s : String) : String × DState := (s, st)
   if histOps.contains (ws.headD "") then
@@ -185,22 +191,22 @@ def handle (st : DState) (ws : List String) : String × DState :=
       match docOfSpec spec with
       | none => pure "bad-doc"
       | some v => pure s!"1 {hexBytes (CA.copyStr v (List.replicate n.toNat! 0x5A))}"
-  | ["mpdoc", lim, pre, fail, hex] =>
-      let g : PL.Geo := ⟨Gen.pool_capacity, Gen.initial_pool_count, Gen.slot_id_size, Gen.slot_size, Gen.pool_object_size⟩
-      let d0 := DH.newDocG g Gen.string_overhead 0
+  | "mpdoc" :: lim :: pre :: fail :: hex :: geo =>
+      let (g, so, maxStr) := docGeo geo
+      let d0 := DH.newDocG g so 0
       let d0 := if pre == "1" then (JDD.run {} 10 d0 "[1,\"abc\",{\"k\":2,\"abc\":12345678901}]".toUTF8.toList).2.1 else d0
       let d0 := { d0 with pl := { d0.pl with log := [] } }
       let k := (fail.drop 1).toString.toNat!
       let d0 := if fail.startsWith "a" then { d0 with pl := { d0.pl with failAt := [d0.pl.calls + k] } }
                 else if fail.startsWith "f" then { d0 with pl := { d0.pl with failFrom := some (d0.pl.calls + k) } } else d0
-      let (c, d, pos) := MDD.run { maxStrLen := Gen.string_max_length } lim.toNat! d0 (unhex hex)
+      let (c, d, pos) := MDD.run { maxStrLen := maxStr } lim.toNat! d0 (unhex hex)
       let log := " ".intercalate (d.pl.log.reverse.map (fun e => s!"a0:{e}"))
       pure s!"{showCode c} {d.show d.root} {pos} o={if d.overflowed then 1 else 0}|{log}"
-  | ["jsondoc", cfgs, lim, pre, fail, hex] =>
-      -- slot-level deserializeJson (AJ/Model/JDD.lean) with the allocator log
-      let cfg := cfgOfBits cfgs.toNat!
-      let g : PL.Geo := ⟨Gen.pool_capacity, Gen.initial_pool_count, Gen.slot_id_size, Gen.slot_size, Gen.pool_object_size⟩
-      let d0 := DH.newDocG g Gen.string_overhead 0
+  | "jsondoc" :: cfgs :: lim :: pre :: fail :: hex :: geo =>
+      -- slot-level deserializeJson (AJ/Model/JDD.lean) with the allocator log; optional geometry: poolCap initPools idBytes stringOverhead maxStrLen
+      let (g, so, maxStr) := docGeo geo
+      let cfg := { cfgOfBits cfgs.toNat! with maxStrLen := maxStr }
+      let d0 := DH.newDocG g so 0
       let d0 := if pre == "1" then (JDD.run cfg 10 d0 "[1,\"abc\",{\"k\":2,\"abc\":12345678901}]".toUTF8.toList).2.1 else d0
       let d0 := { d0 with pl := { d0.pl with log := [] } }
       let k := (fail.drop 1).toString.toNat!
@@ -265,19 +271,19 @@ def handle (st : DState) (ws : List String) : String × DState :=
       | some v =>
         let cfg := cfgOfBits cfgs.toNat!
         let a := JSer.compact cfg v
-        let (c, v2, _) := run cfg 120 a
+        let (c, v2, _) := run cfg 250 a
         pure s!"{showVal v} {hexOrDash a} {showCode c} {showVal v2} {hexOrDash (JSer.compact cfg v2)}"
   | ["mprt", spec] =>
       match docOfSpec spec with
       | none => pure "bad-doc"
       | some v =>
         let a := MD.ser v
-        let (c, v2, _) := MD.run {} 120 .all a
+        let (c, v2, _) := MD.run {} 250 .all a
         pure s!"{showVal v} {hexOrDash a} {showCode c} {showVal v2} {hexOrDash (MD.ser v2)}"
   | ["cross", cfgs, hex] =>
       let cfg := cfgOfBits cfgs.toNat!
-      let (c, v, _) := run cfg 120 (unhex hex)
-      let (c2, v2, _) := MD.run {} 120 .all (MD.ser v)
+      let (c, v, _) := run cfg 250 (unhex hex)
+      let (c2, v2, _) := MD.run {} 250 .all (MD.ser v)
       pure s!"{showCode c} {showVal v} {showCode c2} {showVal v2}"
   | ["conv", cfgs, spec] =>
       match docOfSpec spec with
